@@ -229,6 +229,63 @@ def run(chk, tier):
     else:
         chk.bad("R09.6", "check_for_const|freezes Ok values that may embed failures",
                 "MKLIST/MKDICT store failed operands as elements and check_for_const freezes any Ok result: `[x].filter(v, true)` / `max([x])` are evaluated at compile time with x unbound and the unbound-variable failure is frozen into the program (binding x later does not help)", b.file)
+    # the guard really looks for failures at EVERY depth: its decision table (symbolic execution) is
+    #   Err -> true, List -> any(elements, guard), Map -> any(values, guard), anything else -> false
+    import symex as _sx, semtables as _st
+    for gi, gt, gp in guard:
+        gb = F.bodies.get(lib.callee_of(gt)[0])
+        if gb is None:
+            continue
+        it_ = _sx.Interp(F, _st.LogicPolicy())
+        rows_ = {}
+        for st_, r_ in it_.run(gb, [_sx.U("v", gb.local_ty(1))]):
+            pos = [c[2] for c in st_.cond if c[0] == "variant" and c[3] == "v"]
+            rows_[pos[0] if pos else "other"] = _sx.render(_sx.deep(st_, r_))
+        me = lib.short(gb.path).replace("<'l>::", "")
+        me_rx = re.escape("fn " + me)
+        want_ = {"Err": r"^1$", "List": r"^Iterator::any\(.*, %s\)$" % me_rx, "Map": r"^Iterator::any\(HashMap::values\(v\.Map\.0\), %s\)$" % me_rx, "other": r"^0$"}
+        bad_ = [(k_, rows_.get(k_)) for k_, rx_ in want_.items() if not (rows_.get(k_) is not None and re.match(rx_, rows_[k_]))]
+        bad_ += [(k_, v_) for k_, v_ in rows_.items() if k_ not in want_ and v_ != "0"]
+        if bad_:
+            chk.bad("R09.6", "embedded-failure guard is deep", "%s must find a failure at any depth (Err -> true; list / map -> any element, recursively; otherwise false); found %s: "
+                                                               "`zip([x], ['a'])` or `[[x, 2]].map(p, p)` would be frozen at compile time holding the unbound-variable failure" % (me, bad_), gb.file)
+        else:
+            chk.ok("R09.6", "embedded-failure guard is deep", rows_)
+    # ---------------- R09.7 call arguments
+    chk.rule("R09.7", "call arguments: every argument block is evaluated by run_raw on the calling interpreter and a failing argument fails the call - whatever the block looks like "
+                      "(a constant-folded failure and a run-time failure of the same argument cannot be told apart by the callee)")
+    ra = F.body("rscel::interp::interp::Interpreter::<'a>::resolve_args")
+
+    class ArgPolicy(_st.LogicPolicy):
+        max_paths = 400
+
+        def stub(self, interp, st, path, c, args, t, caller):
+            if path.endswith("Interpreter::<'a>::run_raw"):
+                return [(st, ("call", "run_raw", tuple(args), "R"))]
+            return None
+    it_ = _sx.Interp(F, ArgPolicy())
+    ra_rows = []
+    for st_, r_ in it_.run(ra, [_sx.U("self"), _sx.U("args", ra.local_ty(2))]):
+        conds_ = tuple((c[2], c[3]) if c[0] == "variant" else ("not " + ",".join(c[2]), c[3]) if c[0] == "variant-not" else (c[1], c[2]) for c in st_.cond)
+        ra_rows.append((conds_, _sx.render(_sx.deep(st_, r_))))
+    RUN = r"run_raw\(self, [^,]+, 1\)"
+    okrows = 0
+    for conds_, rr_ in ra_rows:
+        key_ = "resolve_args|%s" % (";".join("%s@%s" % (a_, str(b_)[:24]) for a_, b_ in conds_)[:90])
+        is_bc = any(a_ == "ByteCode" and b_ == "*args" for a_, b_ in conds_)
+        extra = [c_ for c_ in conds_ if c_[1] != "*args" and not re.match(r"^%s$" % RUN, str(c_[1]))]
+        if extra:
+            chk.bad("R09.7", key_, "argument evaluation depends on %s: an argument block is treated differently according to its shape; a constant-folded failing argument (`max(2, 1/0)`) "
+                                   "then reaches the callee as a value while the same failure at run time fails the call" % (extra,), ra.file)
+        elif is_bc and (re.match(r"^Result::Ok\(\[%s\.Ok\.0\]\)$" % RUN, rr_) or re.match(r"^Result::Err\(%s\.Err\.0\)$" % RUN, rr_)):
+            okrows += 1
+            chk.ok("R09.7", key_, rr_[:80])
+        elif not is_bc and rr_ == "Result::Ok([*args])":
+            okrows += 1
+            chk.ok("R09.7", key_, "already a value")
+        else:
+            chk.bad("R09.7", key_, "unexpected argument row %s -> %s" % (conds_, rr_[:120]), ra.file)
+    chk.floor("R09.7", "argument rows (block ok / block failed / plain value)", okrows, 3)
     chk.analysed = {"pairs": npairs, "roots": PAIR_ROOTS, "vm_ops": len(sem)}
     return chk.finish(
         "Fold / VM agreement decided by comparing, per operator template, the folder's term with the symbolic value of the emitted code under the VM arm semantics "
